@@ -47,7 +47,7 @@ fn real_main(cmd: String, args: Vec<String>) -> i32 {
                 Ok(st) => {
                     let j = json!({
                         "prop": prop, "cases": st.cases, "behaviours": st.behaviours, "runs": st.runs,
-                        "clean": st.clean, "kf": st.kf, "kf_samples": st.kf_samples, "n_mismatch": st.n_mismatch,
+                        "clean": st.clean, "kf": st.kf, "kf_samples": st.kf_samples, "kf_cases": st.kf_cases, "n_mismatch": st.n_mismatch,
                         "mismatches": st.mismatches, "unsupported": st.unsupported, "nontrivial": st.nontrivial,
                         "samples": st.samples,
                     });
